@@ -338,7 +338,7 @@ func ParseOTPAuthURL(u *url.URL) (*URLParam, error) {
 	}
 
 	if digitsStr := query.Get("digits"); digitsStr != "" {
-		if digitsInt, err := strconv.Atoi(digitsStr); err == nil {
+		if digitsInt, err := strconv.ParseUint(digitsStr, 10, 8); err == nil {
 			param.Digits = Digits(digitsInt)
 		} else {
 			return nil, fmt.Errorf("invalid digits value: %s", digitsStr)
@@ -359,7 +359,7 @@ func ParseOTPAuthURL(u *url.URL) (*URLParam, error) {
 	}
 
 	if periodStr := query.Get("period"); periodStr != "" {
-		if p, err := strconv.Atoi(periodStr); err == nil {
+		if p, err := strconv.ParseUint(periodStr, 10, strconv.IntSize); err == nil {
 			param.Period = uint(p)
 		} else {
 			return nil, fmt.Errorf("invalid period value: %s", periodStr)
